@@ -108,12 +108,12 @@ Inductive pc_t : Type :=
 | PZ0 (dl : Z)                            (* timeout.expired()  (reads now) *)
 | PZenq (dl : Z).                         (* prepare_usleep(timeout, nullptr) *)
 
-Inductive op : Type :=
-| OLock (m : mid) (tmo : Z) | OTryLock (m : mid) | OUnlock (m : mid)          (* mutex / seq_mutex *)
-| ORLock (m : mid) (tmo : Z) | ORTryLock (m : mid) | ORUnlock (m : mid)       (* recursive_mutex *)
-| OInterrupt (x : tid) (e : Z)
-| OSleep (d : Z)
-| OYield.
+Inductive mop : Type :=
+| MLock (m : mid) (tmo : Z) | MTryLock (m : mid) | MUnlock (m : mid)          (* mutex / seq_mutex *)
+| MRLock (m : mid) (tmo : Z) | MRTryLock (m : mid) | MRUnlock (m : mid)       (* recursive_mutex *)
+| MInterrupt (x : tid) (e : Z)
+| MSleep (d : Z)
+| MYield.
 
 Record mrec : Type := mkM {
   owner : option tid;           (* std::atomic<thread*> owner *)
@@ -359,24 +359,24 @@ Definition tstep (s : state) (t : tid) : option state :=
 (* ---- an idle thread calls an operation.  Client discipline built into the relation: mutex and
         recursive_mutex operations are applied to objects of their own class, and a plain mutex
         is not lock()ed / try_lock()ed again by the thread that holds it (that self-deadlocks). *)
-Definition start (s : state) (t : tid) (o : op) : option state :=
+Definition start (s : state) (t : tid) (o : mop) : option state :=
   match pc (th s t) with
   | PIdle =>
       match o with
-      | OLock m tmo =>
+      | MLock m tmo =>
           if recursive (mx s m) || negb (Nat.eqb (cnt (th s t) m) 0) then None
           else Some (goto s t (PL0 (mkL m (timeout_of (now s) tmo) false)))
-      | OTryLock m =>
+      | MTryLock m =>
           if recursive (mx s m) || negb (Nat.eqb (cnt (th s t) m) 0) then None
           else Some (goto s t (PT0 m false))
-      | OUnlock m => if recursive (mx s m) then None else Some (goto s t (PU0 m false))
-      | ORLock m tmo =>
+      | MUnlock m => if recursive (mx s m) then None else Some (goto s t (PU0 m false))
+      | MRLock m tmo =>
           if recursive (mx s m) then Some (goto s t (PR0 (mkL m (timeout_of (now s) tmo) true))) else None
-      | ORTryLock m => if recursive (mx s m) then Some (goto s t (PRT0 m)) else None
-      | ORUnlock m => if recursive (mx s m) then Some (goto s t (PU0 m true)) else None
-      | OInterrupt x e => Some (goto s t (PI0 x e))
-      | OSleep d => Some (goto s t (PZ0 (timeout_of (now s) d)))
-      | OYield => Some (goto s t (PY1 YOp))
+      | MRTryLock m => if recursive (mx s m) then Some (goto s t (PRT0 m)) else None
+      | MRUnlock m => if recursive (mx s m) then Some (goto s t (PU0 m true)) else None
+      | MInterrupt x e => Some (goto s t (PI0 x e))
+      | MSleep d => Some (goto s t (PZ0 (timeout_of (now s) d)))
+      | MYield => Some (goto s t (PY1 YOp))
       end
   | _ => None
   end.
@@ -416,7 +416,7 @@ Definition exp_body (s : state) (t : tid) : option state :=
   else None.
 
 Inductive label : Type :=
-| LStart (t : tid) (o : op)
+| LStart (t : tid) (o : mop)
 | LStep (t : tid)
 | LSched (t : tid)
 | LDrain (t : tid)
